@@ -220,6 +220,8 @@ KiBOk(stated, bytes) == stated * 1024 <= bytes + 1023 /\ bytes < stated * 1024 +
 
 OctStr(n) == LET RECURSIVE O(_) O(k) == IF k < 8 THEN Digits[k + 1] ELSE O(k \div 8) \o Digits[(k % 8) + 1] IN O(n)
 
+StatedSizes(evs) == IF HasMeta(evs, "control", "Installed-Size")
+                    THEN { MetaVals(evs, "control", "Installed-Size")[i] : i \in 1..Len(MetaVals(evs, "control", "Installed-Size")) } ELSE {}
 DigestClauses(f, c, evs) ==
   CASE f = "deb" ->
          LET D == Idx(evs, LAMBDA e : e.ev = "digest" /\ e.kind = "md5sums")
@@ -231,11 +233,14 @@ DigestClauses(f, c, evs) ==
             \cup (IF \E i \in D : \E j \in R : Norm(evs[i].name) = Norm(evs[j].name) /\ evs[i].hex # evs[j].md5 THEN {"C03.md5sums_value"} ELSE {})
             \cup (IF \E i \in D : HasPrefix(evs[i].name, "/") THEN {"C03.md5sums_relative_name"} ELSE {})
             \cup (IF ~AllDigits(is) \/ ~KiBOk(ToNat(is), SizeSum(f, evs)) THEN {"C03.deb_installed_size"} ELSE {})
+            \cup (IF \E v \in StatedSizes(evs) : ~AllDigits(v) \/ ~KiBOk(ToNat(v), SizeSum(f, evs)) THEN {"C03.deb_installed_size"} ELSE {})
     [] f = "ipk" ->
          LET is == Meta1(evs, "control", "Installed-Size")
              total == SizeSum(f, evs)
          IN (IF is = "" THEN (IF total >= 1024 THEN {"C03.ipk_installed_size"} ELSE {})
              ELSE IF ~AllDigits(is) \/ ~KiBOk(ToNat(is), total) THEN {"C03.ipk_installed_size"} ELSE {})
+            \* every size the control file states describes the payload (a second, user supplied one does not)
+            \cup (IF \E v \in StatedSizes(evs) : ~AllDigits(v) \/ ~KiBOk(ToNat(v), total) THEN {"C03.ipk_installed_size"} ELSE {})
     [] f = "apk" ->
          LET oe == OuterEvs(evs)
              dataSeg == SelectSeq(oe, LAMBDA e : e.name = "data")
